@@ -1371,6 +1371,7 @@ func (o *ovsdbClient) handleDisconnectNotification() {
 		defer db.modelMutex.Unlock()
 		db.model = model.NewPartialDatabaseModel(db.model.Client())
 
+		verifPoint("disconnect.cleanup")
 		db.monitorsMutex.Lock()
 		defer db.monitorsMutex.Unlock()
 		db.monitors = make(map[string]*Monitor)
